@@ -160,10 +160,19 @@ func (w *workerProc) readLine() (string, error) {
 		s, err := w.out.ReadString('\n')
 		ch <- res{s, err}
 	}()
+	mu.Lock()
+	limit := 15 * hangAfter
+	if workerHangs >= 3 {
+		limit = 3 * hangAfter // after three confirmed ones a silent worker is taken at face value sooner
+	}
+	mu.Unlock()
 	select {
 	case r := <-ch:
 		return r.s, r.err
-	case <-time.After(15 * hangAfter):
+	case <-time.After(limit):
+		mu.Lock()
+		workerHangs++
+		mu.Unlock()
 		_ = w.cmd.Process.Kill()
 		r := <-ch
 		_ = r
@@ -172,6 +181,7 @@ func (w *workerProc) readLine() (string, error) {
 }
 
 var errHang = fmt.Errorf("worker silent")
+var workerHangs int
 
 func (w *workerProc) stop() {
 	w.in.Close()
